@@ -66,6 +66,16 @@ CHECKS = {
    "Go randomises map iteration per walk and per process, so a nondeterministic artefact shows as two different digests among repeated fresh runs of one input; the inputs are chosen to have several sections, several processors, dynamic opcodes first met in different orders and goroutines with their own external ports, which is where the order of a walk can leak into opcode numbering, ROM contents, port numbering or line order.",
    "A difference that shows less often than about once in 10 runs (quick) or 40 runs (thorough) per input can be missed: 32-120 runs are spent on the inputs whose failure modes are order-of-visit dependent. Verilog is rendered by the string-returning generators in a child process (the bondmachine command's test-bench path needs a simulation box). Artefacts compared: machine JSON, assembly listings, .basm text, the Verilog file set; error messages are compared without the logger's timestamp. Trusted: TLC, SHA-1.",
    "DESIGN.md §4 C07", "bmverif"),
+ "C01": ("model_checking",
+   "TLA+ spec BMProcSem: instruction-set semantics of one connecting processor (program counter, register file, RAM, output ports; 24 opcodes) whose execution steps under TLC -simulate are the expected retire trace of randomly built programs over architectures that differ in every field width; each program is assembled by the real assembler, executed by the real simulator tick by tick and by the real generated Verilog clock by clock (in the Verilog interpreter of the harness), and the architectural state after every retired instruction is compared three ways; the same programs are run on 32- and 64-bit processors where the two back-ends are compared with each other; BasmSem programs are rendered with and without the program-derived hardware optimisations and the optimised hardware must behave as the plain one",
+   "Every opcode is exercised alone (on a base of load/move/show instructions) and together with all others, with operands drawn over all registers, ports and boundary immediates, on architectures with 2/4/8 registers, 1-4 outputs, 1-3 inputs and 8/16/32/64-bit registers, so a wrong bit slice, operand order or width case in one per-opcode template or Simulate function shows at the first retired instruction that uses it; the specification tells which back-end deviates.",
+   "Co-implemented set used: nop clr inc dec cil cir cpy add mult and or xor nand nor xnor not rset j jz i2r r2o (sub and r2m are stubs in the simulator, m2r is a recorded finding; pipelined, floating-point, carry/compare, shared-object and synchronous-I/O opcodes are not in the specification: synchronous I/O is C02/C04). Programs of 8-12 instructions, 24-40 retired instructions each; RAM cells and registers the reset leaves unknown are taken as zero (FPGA power-up) in the Verilog interpreter. 32/64-bit: no specification values (TLC integers are 32-bit), back-ends compared with each other only. Trusted: TLC, the Verilog interpreter (harness/vlog), the assembly printer.",
+   "DESIGN.md §4 C01", "bmverif"),
+ "C02": ("model_checking",
+   "TLA+ spec BMFabric: a BondMachine as a network of processes joined by handshaked bonds (fan-out: a send completes when every sink has taken the value); TLC checks under EVERY interleaving of the processors and every environment stall (AnySpec) that each external output delivers a prefix of its closed-form stream (Kahn determinacy); TLC -simulate draws topologies (chains, fan-out of an external input / of a processor output, two outputs, mergers), phase shifts, domain sharing and environment timings; each machine is built as a real Bondmachine through the API, run on the real simulator and on the real generated top-level Verilog inside the same four-phase environment, and the streams on every external output are compared: HDL against simulator, both against the specification",
+   "The streams are timing independent in the model, so any difference between simulator, hardware and reference is a wiring or handshake defect, whatever the relative speeds; topologies include processors sharing one domain (processor index differs from domain index), external inputs and processor outputs with two sinks, processors out of phase, and environments that hold valid or delay acknowledgements.",
+   "Eight topologies of 2-3 processors, phase shifts 0-2, three environment timings, 8-bit registers, 9-26 values per output; the netlist is judged by behaviour (streams), not by a structural comparison of the top-level text. Trusted: TLC, the Verilog interpreter, the environment processes of the harness.",
+   "DESIGN.md §4 C02", "bmverif"),
  "C12": ("model_checking",
    "TLA+ spec BondgoSync (visitor / Var_assigner / Usage_Monitor over unbuffered channels) model-checked by TLC for deadlock freedom, termination under fairness, NotifiedBeforeExit and SameRequirements; the real compiler (verif build) run under schedules forced by delays at every hook point, hook logs and process outcomes trace-validated by TLC; TLA+ reference semantics GoSubset simulated by TLC to build programs with expected output streams, compiled by the real bondgo, simulated by the real VM and compared",
    "The protocol model explores every interleaving of the compiler's three goroutines and singles out the schedule that deadlocks a given ordering of the assigner's answer/notify pair; the real compiler is then driven into exactly those schedules (and the others reachable by delaying each synchronisation point), must terminate in all of them and must emit identical artefacts. Independently, programs drawn from the reference semantics are compiled and executed and their output streams must equal the specification's.",
